@@ -38,7 +38,7 @@ def correspondence(ctx):
     ctx.exhaustive = True
     for name in S.ALL:
         rng = ctx.rng("c04", name)
-        bench = B.Bench(name, rng, size=2 * L + 6)
+        bench = B.Bench(name, rng, size=2 * L + 6, need_hash=False)
         if not bench.ok(2 * L + 1):
             ctx.stream("sorted-exhaustive:" + name)["skipped"] = "pool too small (%d classes)" % bench.pool.n()
             ctx.exhaustive = False
@@ -56,7 +56,8 @@ def correspondence(ctx):
                 cons = B.sorted_cons(p)
                 objs = tuple(B.real_cons(bench, cons, m))
                 for x in range(1, 2 * n + 2):
-                    xv = m[x][1]
+                    # the tested version is another object, in another spelling of the same version when the pool has one
+                    xt, xv = bench.alt(m[x], rng) if x % 2 == 0 else m[x]
                     impl = B.res_bool(lambda: contains_version(xv, objs))
                     model, spec, wf = answers[index[(p, x)]].split(" ")
                     ctx.count(stream, key=(p, x), nontrivial=n >= 2,
@@ -65,6 +66,7 @@ def correspondence(ctx):
                     in_dom = wf == "true"
                     if in_dom and impl != "ok:" + spec:
                         d = B.describe(bench, cons, m, x)
+                        d["version"] = xt
                         d["python"] = _oneliner(name, d)
                         ctx.disagree(stream, lines[index[(p, x)]], impl, model, True, d, spec=spec)
                     elif impl != model:
@@ -87,7 +89,7 @@ def _range_stream(ctx):
     N = 20000 if ctx.thorough else 600
     for name in S.ALL:
         rng = ctx.rng("c04-range", name)
-        bench = B.Bench(name, rng, size=14)
+        bench = B.Bench(name, rng, size=14, need_hash=False)
         if not bench.ok(9):
             continue
         stream = "range-random:" + name
@@ -117,7 +119,7 @@ def _range_stream(ctx):
         answers = common.run_model(lines)
         for (cons, m, x), line, ans in zip(jobs, lines, answers):
             objs = B.real_cons(bench, cons, m)
-            xv = m[x][1]
+            xv = bench.alt(m[x], rng)[1]
             def run():
                 r = bench.rclass(constraints=objs)
                 a = xv in r
